@@ -645,6 +645,7 @@ func (fc *FnCtx) execBuiltin(b *ssa.Builtin, c *ssa.CallCommon, args []Val, at s
 		return nil, nil
 	case "close":
 		ch := args[0].T
+		fc.chanFact(args[0], nil)
 		closed := fc.getComp("CN.closed", arraySort("Bool"))
 		fc.safe("close", mkAnd(mkNot(mkEq(ch, "0")), mkNot(sel(closed, ch))), "close of nil or already closed channel")
 		fc.setComp("CN.closed", arraySort("Bool"), sto(closed, ch, "true"))
